@@ -252,7 +252,7 @@ func (rl *Shell) viForwardChar() {
 		vii := rl.Iterations.Get()
 
 		for i := 1; i <= vii; i++ {
-			if (*rl.line)[rl.cursor.Pos()+1] == '\n' {
+			if rl.cursor.Pos() >= rl.line.Len()-1 || (*rl.line)[rl.cursor.Pos()+1] == '\n' {
 				break
 			}
 
